@@ -271,7 +271,11 @@ register('C09',
          'sees after its own steps alone, also when sessions set execution options on their connections (an independent session never adopts another unit of work); the map functions of the model ARE the code - Gen/ManagerGen.v is regenerated from the current manager.py by a fail-closed translator on every build and proved equal to register / clear / clear_connection / clone_track (C09_*_is_the_code); refinement - what a session sees of the manager in any interleaving is exactly the state of the Layer-B unit-of-work machine run on its own events, so the Layer-B theorems hold per session (C09_each_session_is_a_core_run); quiescence - after its rollback (and after its commit, once registered) a session has neither a '
          'unit of work nor a map entry. Tie to the code: 2 and 3 session programs are interleaved step by step, each session on its own '
          'SQLite database/engine/connection but sharing the one manager, mappers and version classes; after every event the two maps are '
-         'read and compared with the model, at the end each database is compared with the solo run of its program (exact equality).',
+         'read and compared with the model, at the end each database is compared with the solo run of its program (exact equality). '
+         'Sessions that open, roll back and release savepoints: Layer M with savepoints (Model/ManagerSp.v: track_savepoint, '
+         'rollback_savepoint, forget_savepoints) with the same locality / interleaving-equals-solo-run theorems and a refinement '
+         'to the single-session savepoint machine of C06 for every session of every interleaving; such schedules are replayed in '
+         'that model step by step. Transaction attributes supplied by a plugin for some sessions only are compared with the solo runs.',
          COMMON_NOTE + 'Steps are atomic session calls in one thread. Connection-bound sessions; DB-API connection identity and the closed flag '
          'are environment functions of the model.',
          'Coq proof (frame lemma per step + induction over the interleaving) + executed interleavings compared with solo runs',
